@@ -216,6 +216,11 @@ pub fn profile_for(prop: &str, cancelable: bool, rng: &mut Rng) -> Profile {
             w.curlocal = 4;
             w.fromspan = 4;
             w.reent = 4;
+            // adapters bound to spans that are not recording, driven inside other spans' scopes
+            w.anew = 5;
+            w.acall = 14;
+            w.adrop = 2;
+            pf.adapter_kinds = vec![AKind::Future, AKind::Stream, AKind::Sink, AKind::Duplex];
         }
         "C17" => {
             w.lcstart = 10;
